@@ -432,3 +432,20 @@ Example blocking_nonvacuous :
   is_blocking (SFor INonEmpty [SIf TUnknown [SCall; SReturn] [SWhile TTrue [SCall; SRaise] []]] []) PNone = true
   /\ no_with (SFor INonEmpty [SIf TUnknown [SCall; SReturn] [SWhile TTrue [SCall; SRaise] []]] []) = true.
 Proof. split; reflexivity. Qed.
+
+(* T16.8: the constant-test branch of delete_unreachable_code keeps the possible outcomes of the statement *)
+Theorem dead_const_sound : forall sup s, outcomes_block sup (apply_dead s) = outcomes sup s.
+Proof.
+  intros sup s.
+  assert (E1 : forall x, outcomes_block sup [x] = outcomes sup x).
+  { intro x. cbn [outcomes_block]. destruct (outcomes sup x) as [n r e b c]. unfold o_seq. cbn.
+    rewrite !andb_true_r, !andb_false_r, !orb_false_r. reflexivity. }
+  destruct s as [| | | | | | t | t b o | t b o | it b o | b | b hs o f | b];
+    try (unfold apply_dead; cbn [dead_const]; apply E1).
+  - (* If *)
+    destruct t; [destruct b as [| x b'] | destruct o as [| x o'] |];
+      unfold apply_dead; cbn [dead_const]; rewrite ?E1, !outcomes_eq; reflexivity.
+  - (* While *)
+    destruct t; try (unfold apply_dead; cbn [dead_const]; apply E1).
+    destruct o as [| x o']; unfold apply_dead; cbn [dead_const]; rewrite ?E1, ?outcomes_eq; reflexivity.
+Qed.
